@@ -156,7 +156,8 @@ def _read_json(rml_rule, references):
     # add columns with null values for those references in the mapping rule that are not present in the data file
     missing_references_in_df = list(set(references).difference(set(json_df.columns)))
     json_df[missing_references_in_df] = None
-    json_df.dropna(axis=0, how='any', inplace=True)
+    # only a NULL in a reference of the mapping rule removes the row, other keys of the JSON objects are not used by the rule
+    json_df.dropna(axis=0, how='any', subset=references, inplace=True)
 
     return json_df
 
